@@ -238,6 +238,14 @@ class WrapMon(Monitor):
         if H < 1:
             return
         self.obs["gpo_rounds_checked"] += 1
+        # generic credit rule (C04): a learner receives a reward only for a point it proposed in this very round
+        proposers = [e[1] for e in pulls]
+        for e in rews:
+            if e[1] not in proposers:
+                self.v("C04:reward_delivered_to_a_learner_that_did_not_propose", learner=e[1], proposers=proposers,
+                       round=i)
+        if len(rews) > 1:
+            self.v("C04:reward_delivered_to_more_than_one_learner", deliveries=len(rews))
         if i >= 2 * N * H:
             # after the last phase: the output is fixed; rewards are dropped (known finding of C04)
             if news or pulls or rews:
